@@ -105,6 +105,7 @@ type CallBind struct {
 	Callee  string
 	Ordinal int
 	Name    string
+	Type    string // let only: the ghost's type (it is unconstrained on paths that do not pass the call site)
 	Expr    ast.Expr
 }
 
@@ -689,17 +690,17 @@ func (sf *SpecFile) addItem(it *rawItem, pkg string) error {
 				}
 				fs.Binds = append(fs.Binds, CallBind{Callee: m[1], Ordinal: n, Name: m[3], Expr: e})
 			case "let":
-				// let <name> = <expr> after call <callee>#<k>   (expr may use arg<i>, result<i> and the variables in scope)
-				m := regexp.MustCompile(`^(\w+)\s*=\s*(.*?)\s+after\s+call\s+(\S+?)#(\d+)$`).FindStringSubmatch(l.text)
+				// let <name> <type> = <expr> after call <callee>#<k>   (expr may use arg<i>, result<i> and the variables in scope)
+				m := regexp.MustCompile(`^(\w+)\s+(\S+)\s*=\s*(.*?)\s+after\s+call\s+(\S+?)#(\d+)$`).FindStringSubmatch(l.text)
 				if m == nil {
 					return fmt.Errorf("bad let clause %q", l.text)
 				}
-				n, _ := strconv.Atoi(m[4])
-				e, err := parseSpecExpr(m[2])
+				n, _ := strconv.Atoi(m[5])
+				e, err := parseSpecExpr(m[3])
 				if err != nil {
 					return err
 				}
-				fs.Lets = append(fs.Lets, CallBind{Callee: m[3], Ordinal: n, Name: m[1], Expr: e})
+				fs.Lets = append(fs.Lets, CallBind{Callee: m[4], Ordinal: n, Name: m[1], Type: m[2], Expr: e})
 			case "at":
 				m := regexp.MustCompile(`^return\s*(\d*)\s*:\s*assert\s+(.*)$`).FindStringSubmatch(l.text)
 				if m == nil {
